@@ -365,6 +365,7 @@ type Observed struct {
 	Err           string `json:"err,omitempty"`
 	Dump          *Dump  `json:"dump,omitempty"`
 	SysUnchanged  bool   `json:"sys_unchanged"`
+	DirectAnc     bool   `json:"direct_anc"` // every workspace's Ancestors() is exactly what its INHERITS names (or sys.Workspace)
 	Deterministic bool   `json:"deterministic"`
 }
 
@@ -372,7 +373,7 @@ func cOutcome(o Observed) string {
 	if o.Stage != "ok" {
 		return "(Rejected " + cBool(o.Stage == "panic" || o.Stage == "died" || o.Stage == "hang") + ")"
 	}
-	return fmt.Sprintf("(Compiled %s %s %s)", cList(o.Dump.Items, cItem), cBool(o.SysUnchanged), cBool(o.Deterministic))
+	return fmt.Sprintf("(Compiled %s %s %s %s)", cList(o.Dump.Items, cItem), cBool(o.SysUnchanged), cBool(o.Deterministic), cBool(o.DirectAnc))
 }
 
 func cTrace(a Schema, texts []PkgText, o Observed) string {
